@@ -38,12 +38,15 @@ CHECKS = {
          "runtime monitor: invariant + call-log oracle over random autoalloc histories with a simulated batch system"),
  "C18": ("E5 autoalloc lab", "5/C18", "per-allocation automaton over snapshots, Allocation* events and the handler call log for the same histories (lifecycle-heavy mix)",
          "runtime monitor: per-allocation lifecycle automaton + worker-set ledger"),
+ "C19": ("E6 stream lab", "5/C19", "the real worker-side streamer (one StreamerRef per simulated worker, several writer files per directory) is driven with random task/instance sets, chunkings and interleavings, files of crashed workers are cut at random offsets, and the directory is read back through the real OutputLog cat/export/summary with fd 1 redirected; bytes compared with the written ones per task and channel, twice (second time with renamed, reordered files)",
+         "runtime monitor: byte-exact round-trip oracle over random stream directories written and read by the real code"),
  "C20": ("E7 handshake lab", "5/C20", "two real do_authentication futures joined through a man-in-the-middle that passes, replays, reflects, splices and modifies the four frames; configuration matrix and single-frame manipulations enumerated exhaustively, multi-frame manipulations sampled",
          "runtime monitor: acceptance oracle over adversarially manipulated real handshakes"),
 }
 LEVEL_NOTE = {
  SIM: "held on the executions produced, never 'verified'; trusted: registration/disconnect glue restated in tako::verif::SimServer, fake task launcher, FIFO-per-link transport model, HiGHS determinism for replay",
  "E3 allocator lab": "held on the operation sequences produced; the allocator is driven directly through tako::verif::AllocatorLab with well-formed requests; brute-force reference and ledger are small but trusted",
+ "E6 stream lab": "chunks enter at StreamSender::send_data with the chunk sizes and end markers the launcher produces; the process-spawning launcher (resend_stdio over pipes) is not driven; a cut file only holds superseded instances",
  "E7 handshake lab": "adversary without key material; frames decoded with mirror structs of the crate-private messages",
  "E5 autoalloc lab": "the batch system is simulated (the real PBS/Slurm handlers are out of scope); demand is judged only where unambiguous; per worker the connect notification precedes the loss notification",
  "E4 journal lab": "exhaustive over the record boundaries of the journals produced (journals themselves are sampled); reference fold is small but trusted; queue records are not produced inside E1",
